@@ -191,6 +191,13 @@ func (g *c03gen) program() []ref.Expr {
 		g.features["focus-capture-through-frames"] = true
 		leaf := &ref.Func{Body: []ref.Expr{&ref.Print{E: &ref.ArrLit{Elems: []ref.Expr{&ref.Var{Name: "xa"}, g.atom(ints), g.atom(ints)}}},
 			&ref.ArrLit{Elems: []ref.Expr{g.atom(ints), &ref.Var{Name: "xa"}}}}}
+		if g.rng.Intn(2) == 0 {
+			// keyword default written as an expression over the factory's parameter: every closure made by the
+			// factory has its own default
+			leaf.Kw = []ref.KwParam{{Name: "kd", DefaultExpr: &ref.Var{Name: "xa"}}}
+			leaf.Body = append([]ref.Expr{&ref.Print{E: &ref.ArrLit{Elems: []ref.Expr{&ref.Var{Name: "kd"}, &ref.Var{Name: "xa"}}}}}, leaf.Body...)
+			g.features["kw-default-from-enclosing-call"] = true
+		}
 		depth := 2 + g.rng.Intn(2)
 		var factory *ref.Func
 		if depth == 2 {
@@ -321,8 +328,64 @@ func init() {
 	})
 }
 
+// c03iterScoping: iterator literals are function-like: their bodies (incl. after recur and in copies) see the
+// scope where the literal was written, whoever calls new / next / a chain. Closed-form expectation.
+func c03iterScoping(rng *rand.Rand) (src, want string) {
+	S, T, U := 1+rng.Intn(4), 5+rng.Intn(4), 100+rng.Intn(50)
+	lim := 6 + rng.Intn(6)
+	var seq []string
+	for i := 0; i < lim; i += S {
+		seq = append(seq, fmt.Sprint(i))
+	}
+	exp := "[" + strings.Join(seq, ", ") + "]"
+	callers := []string{
+		"user := {|step| g.new(0).A}\nr := user(%d)",
+		"o := {step: %d, run: m{|step| g.new(0).A}}\nr := o.run(o.step)",
+		"r := [%d]@{|step| g.new(0).A}[0]",
+		"user := {|step| it := g.new(0); {|step| it.A}(step + 1)}\nr := user(%d)",
+		"user := {|step, lim| g.new(0)@{|x| x}}\nr := user(%d, 2)",
+		"user := {|step| c := g.new(0); c.next; c.next; g.new(0).A}\nr := user(%d)",
+		"user := {|step| g.new(0)$([]){|acc, x| [*acc, x]}}\nr := user(%d)",
+	}
+	c := fmt.Sprintf(callers[rng.Intn(len(callers))], T)
+	factories := []string{
+		"mk := {|step, lim| <{|i| yield i if i < lim; recur(i + step)}>}\ng := mk(%d, %d)",
+		"mk := {|step| {|lim| <{|i| yield i if i < lim; recur(i + step)}>}}\ng := mk(%d)(%d)",
+		"mk := {|step, lim| inner := <{|i| yield i if i < lim; recur(i + step)}>; inner}\ng := mk(%d, %d)",
+	}
+	f := fmt.Sprintf(factories[rng.Intn(len(factories))], S, lim)
+	src = fmt.Sprintf("step := %d\nlim := 3\n%s\n%s\n[g.new(0).A, r, step, lim]", U, f, c)
+	want = fmt.Sprintf("[%s, %s, %d, 3]", exp, exp, U)
+	return
+}
+
 func runC03(w *fw.W) {
 	var ip *interp.Interp
+	// iterator-literal scoping (closed form)
+	for k := 0; k < w.Pick(8, 100); k++ {
+		if !w.Take() {
+			continue
+		}
+		if ip == nil {
+			ip = interp.New()
+		}
+		rng := w.Rand()
+		w.Begin(fmt.Sprintf("iterator scoping batch %d", k), map[string]any{"batch": k})
+		var vs violSet
+		n := 0
+		for i := 0; i < 40; i++ {
+			src, want := c03iterScoping(rng)
+			w.Note(src)
+			o := ip.Run(src, interp.Options{})
+			n++
+			if !o.OK() || o.Inspect != want {
+				vs.add("C03|iterator-literal-scoping", fmt.Sprintf("program:\n%s\n→ %s, lexical scoping gives %s %s", src, o.Outcome(), want, firstLine(o.ParseErr)), src)
+			}
+		}
+		r := fw.Result{Verdict: fw.Held, Evals: n, Counters: map[string]int{"iterator_scoping_programs": n, "decided": n}, DKeys: []string{fmt.Sprintf("iter-scoping|%d", k)}}
+		vs.finish(&r)
+		w.End(r)
+	}
 	nb := w.Pick(400, 8000)
 	for b := 0; b < nb; b++ {
 		if !w.Take() {
